@@ -725,6 +725,47 @@ def canaries(chk):
     chk.canary("an FComponent printer that drops the conversion is refuted", r is not None)
 
 
+def after_failed_prints(chk):
+    """The round trip holds for every model *whenever* it is printed - also after hy.repr calls that raised part-way through a model
+    (an integer literal beyond CPython's int-to-str digit limit, an object inside a model whose printer raises)."""
+    import types
+    samples = ['[1 2.5 "s"]', "#(a b)", '{"k" v}', "42", '"text"', "sym", ":kw", "(f x [y])", 'f"{x !r :>{w}}"', "#{1}", 'b"by"']
+    models = [hy.read(t) for t in samples]
+    before = [hy.repr(m) for m in models]
+
+    class Unprintable:
+        def __repr__(self):
+            raise ZeroDivisionError("no repr")
+    huge = hy.models.Integer(int("f" * 4000, 16))
+    failing = [huge, hy.models.List([hy.models.Symbol("a"), huge]), hy.models.Expression([hy.models.Symbol("f"), Unprintable()]),
+               hy.models.List([hy.models.Tuple([Unprintable()])]), hy.models.Dict([hy.models.String("k"), Unprintable()])]
+    bad = None
+    raised = 0
+    for f in failing:
+        try:
+            hy.repr(f)
+        except Exception:  # noqa: BLE001
+            raised += 1
+        for t, m, b in zip(samples, models, before):
+            now = hy.repr(m)
+            chk.case(("after-failed-print", t, raised))
+            if now != b and bad is None:
+                bad = (t, b, now)
+            elif bad is None:
+                try:
+                    back = hy.eval(hy.read(now), module=types.ModuleType("hv_c25_after"))
+                    if type(back) is not type(m) or back != m:
+                        bad = (t, b, f"{now!r} reads back as {back!r}")
+                except Exception as e:  # noqa: BLE001
+                    bad = (t, b, f"{now!r}: {type(e).__name__}")
+    chk.ob("roundtrip/after hy.repr calls that raised inside a model, every model still prints the text that reads back to it",
+           bad is None and raised >= 3, "rtc", "bounded",
+           detail=f"{raised} failing prints, {len(samples)} models re-checked after each" if bad is None else
+           f"{bad[0]}: printed {bad[1]!r} before and {bad[2]} after a failed hy.repr",
+           replay=None if bad is None else {"confirmed": True, "input": f"hy.repr of a model containing an unprintable object, then hy.repr of {bad[0]}",
+                                            "observed": str(bad[2]), "expected": bad[1]})
+
+
 def run(chk):
     chk.level = "other"
     chk.explanation = ("Per-printer output contracts are decided completely for all child shapes and attribute combinations up to 4 "
@@ -733,6 +774,7 @@ def run(chk):
                        "outside the deductive subset and the quantifier ranges over all readable texts.")
     structural_part(chk, chk.tier)
     roundtrip_part(chk, chk.tier)
+    after_failed_prints(chk)
     canaries(chk)
     chk.fn("hy/core/hy_repr.hy::hy-repr", "hy/core/hy_repr.hy::_cat", "hy/core/hy_repr.hy::_base-repr",
            "hy/core/hy_repr.hy::printers registered for Tuple, List, Set, Dict, Expression, Symbol, Keyword, String, Bytes, Float, "
